@@ -259,9 +259,12 @@ impl Node {
                     err = Some("legacy bracket node under v");
                 }
             }
-            Node::VClass(_) => {
+            Node::VClass(vc) => {
                 if !flags.v {
                     err = Some("class set outside v mode");
+                }
+                if vclass_negation_error(vc) {
+                    err = Some("negated class set may contain strings");
                 }
             }
             Node::Prop(..) if !um => err = Some("property escape outside unicode mode"),
@@ -333,4 +336,32 @@ fn check_dups(n: &Node, dup: &mut bool) -> Vec<String> {
         }
         _ => Vec::new(),
     }
+}
+
+/// Static MayContainStrings (ES2025 22.2.1.6) of a class set's contents, with the name of a property
+/// of strings recognised syntactically.
+fn vclass_may_contain_strings(vc: &VClass) -> bool {
+    let operand = |o: &VOperand| -> bool {
+        match o {
+            VOperand::QStrings(v) => v.iter().any(|s| s.len() != 1),
+            VOperand::Prop(_, name) => matches!(name.as_str(), "Basic_Emoji" | "Emoji_Keycap_Sequence" | "RGI_Emoji_Modifier_Sequence" | "RGI_Emoji_Flag_Sequence" | "RGI_Emoji_Tag_Sequence" | "RGI_Emoji_ZWJ_Sequence" | "RGI_Emoji"),
+            VOperand::Nested(n) => !n.negated && vclass_may_contain_strings(n),
+            _ => false,
+        }
+    };
+    match vc.op {
+        VOp::Union => vc.operands.iter().any(operand),
+        VOp::Inter => vc.operands.iter().all(operand),
+        VOp::Sub => vc.operands.first().map(operand).unwrap_or(false),
+    }
+}
+
+fn vclass_negation_error(vc: &VClass) -> bool {
+    if vc.negated && vclass_may_contain_strings(vc) {
+        return true;
+    }
+    vc.operands.iter().any(|o| match o {
+        VOperand::Nested(n) => vclass_negation_error(n),
+        _ => false,
+    })
 }
